@@ -1055,7 +1055,13 @@ impl SparqlTranslator {
                     distinct,
                     expression,
                 } => (
-                    AggregateFunction::Count,
+                    // COUNT(*) counts solutions, COUNT(expr) the solutions in which
+                    // expr has a value
+                    if expression.is_some() {
+                        AggregateFunction::CountNonNull
+                    } else {
+                        AggregateFunction::Count
+                    },
                     expression.as_ref().map(|e| e.as_ref()),
                     *distinct,
                 ),
